@@ -137,6 +137,12 @@ pub trait ServerStats {
     fn iter(&self) -> Iter<IpAddr, ClientStats>;
 
     fn clear(&mut self);
+
+    /// Simulation builds only: events turned away because the recorder was full
+    #[cfg(roughenough_verif)]
+    fn verif_num_overflows(&self) -> u64 {
+        0
+    }
 }
 
 #[cfg(test)]
